@@ -294,6 +294,19 @@ func newDecoder(fileIO fileIO, delegate DecoderDelegate, indexPath string, numGo
 		return nil, err
 	}
 
+	// Each file must come with exactly as many checksums as it
+	// has slices; the rest of the decoder relies on that.
+	sliceByteCount := indexFile.mainPacket.sliceByteCount
+	for _, info := range append(append([]decoderInputFileInfo{}, recoverySet...), nonRecoverySet...) {
+		sliceCount := info.byteCount / sliceByteCount
+		if info.byteCount%sliceByteCount != 0 {
+			sliceCount++
+		}
+		if len(info.checksumPairs) != sliceCount {
+			return nil, errors.New("checksum count does not match file length")
+		}
+	}
+
 	return &Decoder{
 		fileIO, delegate,
 		indexPath,
